@@ -8,6 +8,7 @@ import (
 	"errors"
 	"fmt"
 	"io"
+	"math"
 	"sync"
 
 	"github.com/fido-device-onboard/go-fdo/cbor"
@@ -107,9 +108,11 @@ func (r *ChunkReader) ReadChunk(size uint16) (*KV, error) {
 		}
 		r.r = nextReader
 
-		// Limit the max bytes read for the key to size minus 7 (min overhead,
-		// see note below)
-		keyReader := io.LimitReader(r.r, int64(size-7))
+		// The key is read regardless of the size left. When it does not fit,
+		// the overhead check below answers ErrSizeTooSmall and the reader
+		// (with its key) is kept for the next call. A key cannot be larger
+		// than the largest possible service info.
+		keyReader := io.LimitReader(r.r, math.MaxUint16)
 
 		// Read key as raw CBOR
 		if err := cbor.NewDecoder(keyReader).Decode(&r.rkey); err != nil {
